@@ -235,36 +235,58 @@ pub fn raise_parent_modules() -> Vec<(String, Vec<String>, Vec<String>)> {
     let mut v = vec![];
     for named in [true, false] {
         for plain_first in [true, false] {
-            let d = "#[derive(Clone, Debug, PartialEq, Default)]";
-            let mut o = String::from(HEAD);
-            let _ = writeln!(o, "{d} pub struct Tf {{ pub u: i32, pub a: i32, pub b: i32 }}");
-            let p_item = "#[try_from_ref(Tf, Er)]\n#[try_into_existing(Tf, Er)]\npub struct P { #[try_from_ref(chk(~, 10)?)] #[try_into(chk(~, 10)?)] pub a: i32, pub b: i32 }\n".to_string();
-            let _ = writeln!(o, "{d}\n#[derive(o2o::o2o)]\n{}", p_item);
-            let hint = if named { "" } else { " as {}" };
-            let plain = if named { "#[try_map(chk(~, 20)?)] u: i32" } else { "#[try_map(u, chk(~, 20)?)] i32" };
-            let parent = if named { "#[parent] p: P" } else { "#[parent] P" };
-            let members = if plain_first { vec![plain, parent] } else { vec![parent, plain] };
-            let s_item = format!("#[try_map(Tf{hint}, Er)]\n#[try_into_existing(Tf{hint}, Er)]\n{}\n", if named { format!("pub struct S {{ {} }}", members.join(", ")) } else { format!("pub struct S({});", members.join(", ")) });
-            let _ = writeln!(o, "{d}\n#[derive(o2o::o2o)]\n{}", s_item);
-            let s_val = |u: i64, a: i64, b: i64| {
-                let pu = if named { format!("u: {}", u) } else { u.to_string() };
-                let pp = if named { format!("p: P {{ a: {}, b: {} }}", a, b) } else { format!("P {{ a: {}, b: {} }}", a, b) };
-                let parts = if plain_first { vec![pu, pp] } else { vec![pp, pu] };
-                if named { format!("S {{ {} }}", parts.join(", ")) } else { format!("S({})", parts.join(", ")) }
-            };
-            let _ = writeln!(o, "pub fn run(r: &mut Rec) {{");
-            // which member is triggered: none | the plain one | the parent's
-            for (label, u, a) in [("none", 5i64, 7i64), ("plain", -777, 7), ("parent", 5, -777)] {
-                let exp_err = match label { "plain" => Some(20), "parent" => Some(10), _ => None };
-                let exp_s = match exp_err { Some(m) => format!("Err(Er({}))", m), None => format!("Ok({})", s_val(u + 20, a + 10, 9)) };
-                let exp_t = match exp_err { Some(m) => format!("Err(Er({}))", m), None => format!("Ok(T {{ u: {}, a: {}, b: 9 }})", u + 20, a + 10) };
-                let exp_e = match exp_err { Some(m) => format!("Err(Er({}))", m), None => "Ok(())".to_string() };
-                let _ = writeln!(o, "  {{ let t = Tf {{ u: {u}, a: {a}, b: 9 }}; r.same(\"try_from_owned/{label}\", dbg(&<S as TryFrom<Tf>>::try_from(t.clone())), \"{exp_s}\".to_string()); r.same(\"try_from_ref/{label}\", dbg(&<S as TryFrom<&Tf>>::try_from(&t)), \"{exp_s}\".to_string()); }}");
-                let _ = writeln!(o, "  {{ let s = {}; r.same(\"try_owned_into/{label}\", dbg(&<S as TryInto<Tf>>::try_into(s.clone())), \"{exp_t}\".to_string()); r.same(\"try_ref_into/{label}\", dbg(&<&S as TryInto<Tf>>::try_into(&s)), \"{exp_t}\".to_string());", s_val(u, a, 9));
-                let _ = writeln!(o, "    let mut o1 = Tf {{ u: 900, a: 901, b: 902 }}; r.same(\"try_owned_into_existing/{label}\", dbg(&<S as TryIntoExisting<Tf>>::try_into_existing(s.clone(), &mut o1)), \"{exp_e}\".to_string()); let mut o2 = Tf {{ u: 900, a: 901, b: 902 }}; r.same(\"try_ref_into_existing/{label}\", dbg(&<&S as TryIntoExisting<Tf>>::try_into_existing(&s, &mut o2)), \"{exp_e}\".to_string()); }}");
+            for overlap in [false, true] {
+                let d = "#[derive(Clone, Debug, PartialEq, Default)]";
+                let mut o = String::from(HEAD);
+                let _ = writeln!(o, "{d} pub struct Tf {{ pub u: i32, pub a: i32, pub b: i32 }}");
+                let p_item = "#[try_from_ref(Tf, Er)]\n#[try_into_existing(Tf, Er)]\npub struct P { #[try_from_ref(chk(~, 10)?)] #[try_into(chk(~, 10)?)] pub a: i32, pub b: i32 }\n".to_string();
+                let _ = writeln!(o, "{d}\n#[derive(o2o::o2o)]\n{}", p_item);
+                let hint = if named { "" } else { " as {}" };
+                let plain = if named { "#[try_map(chk(~, 20)?)] u: i32" } else { "#[try_map(u, chk(~, 20)?)] i32" };
+                // `overlap`: an own member that writes a field the parent writes too (the order of the two writes is then observable)
+                let extra = if named { "#[map(b)] ub: i32" } else { "#[map(b)] i32" };
+                let parent = if named { "#[parent] p: P" } else { "#[parent] P" };
+                let mut members = if plain_first { vec![plain, parent] } else { vec![parent, plain] };
+                if overlap {
+                    members.push(extra);
+                }
+                let s_item = format!("#[try_map(Tf{hint}, Er)]\n#[try_into_existing(Tf{hint}, Er)]\n{}\n", if named { format!("pub struct S {{ {} }}", members.join(", ")) } else { format!("pub struct S({});", members.join(", ")) });
+                let _ = writeln!(o, "{d}\n#[derive(o2o::o2o)]\n{}", s_item);
+                let s_val = |u: i64, a: i64, b: i64, ub: i64| {
+                    let pu = if named { format!("u: {}", u) } else { u.to_string() };
+                    let pp = if named { format!("p: P {{ a: {}, b: {} }}", a, b) } else { format!("P {{ a: {}, b: {} }}", a, b) };
+                    let mut parts = if plain_first { vec![pu, pp] } else { vec![pp, pu] };
+                    if overlap {
+                        parts.push(if named { format!("ub: {}", ub) } else { ub.to_string() });
+                    }
+                    if named { format!("S {{ {} }}", parts.join(", ")) } else { format!("S({})", parts.join(", ")) }
+                };
+                let _ = writeln!(o, "pub fn run(r: &mut Rec) {{");
+                // which member is triggered: none | the plain one | the parent's | both
+                for (label, u, a) in [("none", 5i64, 7i64), ("plain", -777, 7), ("parent", 5, -777), ("both", -777, -777)] {
+                    let exp_err = match label { "plain" => Some(20), "parent" => Some(10), _ => None };
+                    if label != "both" {
+                        let exp_s = match exp_err { Some(m) => format!("Err(Er({}))", m), None => format!("Ok({})", s_val(u + 20, a + 10, 9, 9)) };
+                        let _ = writeln!(o, "  {{ let t = Tf {{ u: {u}, a: {a}, b: 9 }}; r.same(\"try_from_owned/{label}\", dbg(&<S as TryFrom<Tf>>::try_from(t.clone())), \"{exp_s}\".to_string()); r.same(\"try_from_ref/{label}\", dbg(&<S as TryFrom<&Tf>>::try_from(&t)), \"{exp_s}\".to_string()); }}");
+                    }
+                    let _ = writeln!(o, "  {{ let s = {};", s_val(u, a, 9, 44));
+                    let _ = writeln!(o, "    let i1 = <S as TryInto<Tf>>::try_into(s.clone()); let i2 = <&S as TryInto<Tf>>::try_into(&s);");
+                    let _ = writeln!(o, "    let mut o1 = Tf {{ u: 900, a: 901, b: 902 }}; let e1 = <S as TryIntoExisting<Tf>>::try_into_existing(s.clone(), &mut o1).map(|_| o1); let mut o2 = Tf {{ u: 900, a: 901, b: 902 }}; let e2 = <&S as TryIntoExisting<Tf>>::try_into_existing(&s, &mut o2).map(|_| o2);");
+                    // differential: the flavours agree with each other on value and on the error that comes out
+                    let _ = writeln!(o, "    r.same(\"try_ref_into==try_owned_into/{label}\", dbg(&i2), dbg(&i1)); r.same(\"try_owned_into_existing==try_owned_into/{label}\", dbg(&e1), dbg(&i1)); r.same(\"try_ref_into_existing==try_owned_into/{label}\", dbg(&e2), dbg(&i1));");
+                    if label != "both" && !overlap {
+                        let exp_t = match exp_err { Some(m) => format!("Err(Er({}))", m), None => format!("Ok(T {{ u: {}, a: {}, b: 9 }})", u + 20, a + 10) };
+                        let _ = writeln!(o, "    r.same(\"try_owned_into/{label}\", dbg(&i1), \"{exp_t}\".to_string());");
+                    } else if label != "both" {
+                        // with an overlapping write only the error (or its absence) is fixed by the statement
+                        let exp_e = match exp_err { Some(m) => format!("Err(Er({}))", m), None => "Ok(())".to_string() };
+                        let _ = writeln!(o, "    r.same(\"try_owned_into/{label}\", dbg(&i1.map(|_| ())), \"{exp_e}\".to_string());");
+                    }
+                    let _ = writeln!(o, "  }}");
+                }
+                o.push_str("}\n");
+                v.push((o, vec![s_item, p_item], vec!["raise-parent".to_string(), format!("shape={}", if named { "named" } else { "tuple" }), format!("plain_first={}", plain_first), format!("overlap={}", overlap)]));
             }
-            o.push_str("}\n");
-            v.push((o, vec![s_item, p_item], vec!["raise-parent".to_string(), format!("shape={}", if named { "named" } else { "tuple" }), format!("plain_first={}", plain_first)]));
         }
     }
     v
